@@ -321,6 +321,7 @@ func sample(c Case) any {
 
 var subEnum = vk.Register(&vk.Sub[Case]{Name: "enum", Check: check, NonTrivial: nonTrivial, Sample: sample})
 var subCoords = vk.Register(&vk.Sub[Case]{Name: "coords", Check: check, NonTrivial: nonTrivial, Labels: labels, Sample: sample})
+var subCorners = vk.Register(&vk.Sub[Case]{Name: "corners", Check: check, NonTrivial: nonTrivial, Labels: labels, Sample: sample})
 var subRandom = vk.Register(&vk.Sub[Case]{Name: "random", Gen: gen, Check: check, NonTrivial: nonTrivial, Labels: labels, Sample: sample})
 
 func gen(t *rapid.T) Case {
@@ -336,6 +337,39 @@ func gen(t *rapid.T) Case {
 }
 
 func TestSub_random(t *testing.T) { vk.RunRapid(t, subRandom) }
+
+// TestSub_corners: the widest and deepest expressions of the domain on the longest parent - joins of up to six joins
+// of up to six nearly whole-parent spans, alone and under a complement - so that operands of tens of thousands of
+// bases occur (a 2000-base parent read 36 times), with span ends varied so that operand lengths fall in many
+// residue classes.
+func TestSub_corners(t *testing.T) {
+	const n = 2000
+	parent := vk.SeqSpec{Fill: vk.Seed() + 7, N: n, Alpha: "ACGTacgtRYKMN"}
+	vk.RunEnum(t, subCorners, "complement(join(join(a spans) x b)) and join(join(...)) of nearly whole-parent spans on a 2000-base parent, a, b in 2..6, three span families", true, func(yield func(Case) bool) {
+		i := 0
+		for a := 2; a <= 6; a++ {
+			for b := 2; b <= 6; b++ {
+				for fam := 0; fam < 3; fam++ {
+					var outer []insdc.Node
+					for y := 0; y < b; y++ {
+						var inner []insdc.Node
+						for x := 0; x < a; x++ {
+							k := (x*5 + y*3 + fam*11) % 17
+							inner = append(inner, insdc.Span(1+(k*(fam+1))%9, n-k))
+						}
+						outer = append(outer, insdc.Join(inner...))
+					}
+					for _, loc := range []insdc.Node{insdc.Complement(insdc.Join(outer...)), insdc.Join(outer...), insdc.Join(insdc.Complement(insdc.Join(outer[:2]...)), outer[len(outer)-1])} {
+						i++
+						if !yield(Case{Parent: parent, Loc: loc, InRecord: i%8 == 0}) {
+							return
+						}
+					}
+				}
+			}
+		}
+	})
+}
 
 // TestSub_coords puts every coordinate 1..2000 of a 2000-base parent in every role: single base,
 // span start, span end, first and last operand of a join, under a complement, with partial markers.
